@@ -9,6 +9,7 @@ CONSTANTS
   ReuseKeys = FALSE
   NoReinit = FALSE
   NoRekey = FALSE
+  EarlyFlag = FALSE
   Hist = FALSE
 INVARIANT TypeOK
 INVARIANT Inv_AllDead
